@@ -8,23 +8,25 @@ from vf.func.stubs import AUTHOR, PEER1, PEER2, LEAD, ROBOT
 
 ID = 'C04'
 LEVEL = 'exploration'
-EXHAUSTIVE_MEANS_ALL = True
+EXHAUSTIVE_MEANS_ALL = False
 RULE = ('(system-level companion: sampled cells replayed on real '
         'repositories through put_job/process_task with the same oracle) '
         'every cell of (required peers, required leaders, author approval '
         'on/off, author is a leader) x each of the 5 users in one of 5 review '
         'states x every subset of {bypass_author, bypass_peer, bypass_leader, '
-        'approve, unanimity} [x every assignment of a source (admin comment, '
-        'per-author setting, command line) to each bypass in the thorough '
-        'tier; rotating sources in the quick tier] is run through the real '
+        'approve, unanimity} [thorough: x every assignment of a source (admin '
+        'comment, per-author setting, command line) to each bypass for the '
+        'configurations with <= 1 required peer, rotating sources elsewhere; '
+        'quick: rotating sources and every other user-state vector] is run '
+        'through the real '
         'handle_comments + check_approvals; cells are enumerated without '
         'repetition, so each is distinct; non-trivial = the expected outcome '
         'is a refusal, or a pass while some requirement is active (not '
         'bypassed, count > 0, author approval needed, or unanimity)')
 ASSUMPTIONS = [
     'pull request, participants and comments are stub objects; settings come '
-    'from the real SettingsSchema; the companion world check (C06/C10 '
-    'histories) exercises check_approvals on real repositories',
+    'from the real SettingsSchema; the system-level companion '
+    '(vf/world/gates_world.py) replays sampled cells on real repositories',
     '"waived" is read as: bypassed or required count 0 (peers, leaders); '
     'disabled or bypassed (author); unanimity not requested',
     'host-inconsistent cells (an approver or change requester that the host '
